@@ -6,6 +6,7 @@ pub mod c02;
 pub mod c03;
 pub mod c04;
 pub mod c05;
+pub mod c06;
 pub mod c07;
 pub mod c08;
 pub mod c09;
@@ -14,8 +15,10 @@ pub mod c11;
 pub mod c12;
 pub mod c13;
 pub mod c14;
+pub mod c15;
 pub mod c16;
 pub mod c17;
+pub mod c18;
 pub mod c19;
 
 pub const ALL: &[&str] = &[
@@ -29,6 +32,7 @@ pub fn run(ctx: &mut Ctx) {
         "C03" => c03::run(ctx),
         "C04" => c04::run(ctx),
         "C05" => c05::run(ctx),
+        "C06" => c06::run(ctx),
         "C07" => c07::run(ctx),
         "C08" => c08::run(ctx),
         "C09" => c09::run(ctx),
@@ -37,8 +41,10 @@ pub fn run(ctx: &mut Ctx) {
         "C12" => c12::run(ctx),
         "C13" => c13::run(ctx),
         "C14" => c14::run(ctx),
+        "C15" => c15::run(ctx),
         "C16" => c16::run(ctx),
         "C17" => c17::run(ctx),
+        "C18" => c18::run(ctx),
         "C19" => c19::run(ctx),
         other => {
             eprintln!("{other}: no engine built yet");
@@ -54,6 +60,7 @@ pub fn replay(ctx: &mut Ctx, stage: &str, case: &Value) -> Result<(), String> {
         "C03" => c03::replay(ctx, stage, case),
         "C04" => c04::replay(ctx, stage, case),
         "C05" => c05::replay(ctx, stage, case),
+        "C06" => c06::replay(ctx, stage, case),
         "C07" => c07::replay(ctx, stage, case),
         "C08" => c08::replay(ctx, stage, case),
         "C09" => c09::replay(ctx, stage, case),
@@ -62,13 +69,19 @@ pub fn replay(ctx: &mut Ctx, stage: &str, case: &Value) -> Result<(), String> {
         "C12" => c12::replay(ctx, stage, case),
         "C13" => c13::replay(ctx, stage, case),
         "C14" => c14::replay(ctx, stage, case),
+        "C15" => c15::replay(ctx, stage, case),
         "C16" => c16::replay(ctx, stage, case),
         "C17" => c17::replay(ctx, stage, case),
+        "C18" => c18::replay(ctx, stage, case),
         "C19" => c19::replay(ctx, stage, case),
         other => Err(format!("{other}: no engine built yet")),
     }
 }
 
-pub fn worker(_args: &[String]) -> i32 {
-    2
+pub fn worker(args: &[String]) -> i32 {
+    match args.first().map(|s| s.as_str()) {
+        Some("c15") | Some("c15one") => c15::worker(args),
+        Some("c18") | Some("c18one") => c18::worker(args),
+        _ => 2,
+    }
 }
